@@ -141,6 +141,15 @@ def run_unit(unit_name, defines=(), canary=None, seed=0, rlimit=None, tag='main'
 if __name__ == '__main__':
     r = run_unit(sys.argv[1], sys.argv[2:])
     r2 = {k: v for k, v in r.items() if k not in ('meta',)}
+    if r.get('status') == 'undecided':
+        try:
+            for ln in open(r['out_path'] + '.stderr'):
+                if ln.startswith('{'):
+                    d = json.loads(ln)
+                    if d.get('level') == 'error':
+                        print(d.get('rendered'))
+        except Exception:
+            pass
     for f in r2.get('failures', []):
         print(f['rendered'])
         f.pop('rendered')
